@@ -1,6 +1,7 @@
 package main
 
 import (
+	"sync"
 	"bytes"
 	"fmt"
 	"go/ast"
@@ -34,6 +35,8 @@ type Engine struct {
 	unbound  []string // contracts that no longer bind (STALE-CONTRACT)
 	files    map[string]*ast.File
 	loadSecs float64
+	lines    map[string][]string
+	mu       sync.Mutex
 }
 
 func loadEngine(repo, assumedDir string, overlay map[string][]byte) (*Engine, error) {
@@ -277,4 +280,26 @@ func (f *FuncVC) typeTagByName(name string) string {
 	}
 	f.unsup("unknown type name " + name)
 	return "-1"
+}
+
+// sourceLine returns the text of the source line containing pos.
+func (eng *Engine) sourceLine(pos token.Pos) string {
+	p := eng.fset.Position(pos)
+	if eng.lines == nil {
+		eng.lines = map[string][]string{}
+	}
+	eng.mu.Lock()
+	ls, ok := eng.lines[p.Filename]
+	if !ok {
+		data, err := os.ReadFile(p.Filename)
+		if err == nil {
+			ls = strings.Split(string(data), "\n")
+		}
+		eng.lines[p.Filename] = ls
+	}
+	eng.mu.Unlock()
+	if p.Line >= 1 && p.Line <= len(ls) {
+		return ls[p.Line-1]
+	}
+	return ""
 }
